@@ -68,6 +68,8 @@ CONSTANTS MaxOps,    \* operations the client may submit
           UseDirs,   \* directions used by the client, subset of {"R","W"}
           Feat,      \* subset of {"low","high","close","stop","release","eof","hup","frag","kerr"}
           InFile,    \* TRUE: the inbound object is a regular file of MaxIn bytes
+          Dev,       \* named deviations of the pinned code from the property: {} = as the property
+                     \* demands, {"imm_noref"} = as /repo does (see CleanupOnceAfterAll)
           Mut,       \* "none" or a spec mutant
           TraceMode, \* TRUE in IoTrace (kernel buffer sizes unknown, log points precede effects)
           Liberal,   \* TRUE: aspects the property does not state are left open (trace pass 2)
@@ -329,6 +331,12 @@ StopViews == IF "stopped" \in flags THEN (IF Liberal THEN {TRUE, FALSE} ELSE {TR
 Forces == IF Liberal THEN {"strict", "yes", "no"} ELSE {"strict"}
 
 (* ------------------------------ barrier queue ------------------------------ *)
+\* The handler of an operation that is rejected without ever reaching a stream (ECANCELED at
+\* creation / enqueue, or zero length) is posted WITHOUT an fd_entry reference in /repo
+\* (_dispatch_operation_create, _dispatch_operation_enqueue): nothing orders it before the
+\* cleanup handler.  The property wants it ordered; the repaired model takes the reference on the
+\* barrier queue when the channel still has its fd_entry.
+ImmRef == IF "imm_noref" \in Dev THEN FALSE ELSE chFd
 BqStep ==
   /\ bqSusp = 0 /\ bq # <<>>
   /\ bq' = Tail(bq)
@@ -339,7 +347,7 @@ BqStep ==
             LET o == b.o
                 r == op[o]
                 null == (r.dir = "R" /\ b.v # 0) \/ (r.dir = "W" /\ b.v = 0)
-                S1 == PostBlock(LibS, o, <<Inv(TRUE, r.wdata, null, b.v)>>, FALSE)
+                S1 == PostBlock(LibS, o, <<Inv(TRUE, r.wdata, null, b.v)>>, ImmRef)
             IN /\ SetLib([S1 EXCEPT !.op[o].st = "rejected"])
                /\ UNCHANGED <<chvars, bqSusp, sq, bars>>
        [] b.k = "enq" ->   \* _dispatch_operation_enqueue
@@ -347,7 +355,7 @@ BqStep ==
                 r == op[o] IN
             IF flags # {}
             THEN LET null == (r.dir = "R")
-                     S1 == PostBlock(LibS, o, <<Inv(TRUE, r.wdata, null, ECANCELED)>>, FALSE)
+                     S1 == PostBlock(LibS, o, <<Inv(TRUE, r.wdata, null, ECANCELED)>>, ImmRef)
                  IN /\ SetLib([S1 EXCEPT !.op[o].st = "rejected"])
                     /\ UNCHANGED <<chvars, bqSusp, sq, bars>>
             ELSE /\ SetLib([LibS EXCEPT !.op[o].st = "sq", !.grp = @ + 1, !.fdref = @ + 1])
